@@ -82,6 +82,14 @@ theorem createE_eq {m : MT R} {rel det : List (R × R)} (h : Inv m rel det) :
     | none => rw [hsr] at hr; simp [hd.1, hd.2, hr]
     | some u => rw [hsr] at hr; simp [hd.1, hd.2, hr.1, hr.2]
 
+theorem reduceFinal_keeps {t : Traj R} {w : R} {u v : TSum R} (h : reduceFinal t w u = some v) :
+    v.s1 = u.s1 ∧ v.s2 = u.s2 ∧ v.st = u.st := by
+  unfold reduceFinal at h
+  split at h
+  · cases h; exact ⟨rfl, rfl, rfl⟩
+  · cases h; exact ⟨rfl, rfl, rfl⟩
+  · cases h
+
 theorem process_sums {p : Procs} {t : Traj R} {w : R} {u u' : TSum R}
     (h : process p t w u = .ok u') (he : p.expect = true) :
     u'.s1 = u.s1 + w * t.x ∧ u'.s2 = u.s2 + w * (t.x * t.x) := by
@@ -94,11 +102,9 @@ theorem process_sums {p : Procs} {t : Traj R} {w : R} {u u' : TSum R}
     | some v =>
       simp only [hr, bind, Except.bind, pure, Except.pure] at h
       cases h
-      unfold reduceFinal at hr
-      split at hr
-      · cases hr
-        by_cases hs : p.states = true <;> simp [hs, reduceExpect, reduceStates]
-      · cases hr
+      obtain ⟨k1, k2, _⟩ := reduceFinal_keeps hr
+      simp only [reduceExpect, k1, k2]
+      by_cases hs : p.states = true <;> simp [hs, reduceStates]
   · simp only [hf] at h
     simp only [bind, Except.bind, pure, Except.pure, Bool.false_eq_true, if_false] at h
     cases h
@@ -243,23 +249,23 @@ theorem inv_mapSums {m : MT R} {rel det : List (R × R)} {fD fR : TSum R → TSu
 theorem initSt_keeps (first : List R) (need : Bool) : KeepsMoments (initSt first need : TSum R → TSum R) := by
   intro u; unfold initSt; split <;> exact ⟨rfl, rfl⟩
 
+theorem rebuildSt_keeps (first : List R) (need : Bool) (ts : List (Traj R)) (ws : List R) :
+    KeepsMoments (rebuildSt first need ts ws : TSum R → TSum R) := by
+  intro u
+  unfold rebuildSt
+  split
+  · obtain ⟨a, b⟩ := redoStates_keeps ts ws (initSt first true u)
+    rw [a, b]; exact initSt_keeps _ _ u
+  · exact ⟨rfl, rfl⟩
+
 theorem statesPrep_inv {m m' : MT R} {rel det : List (R × R)} (h : Inv m rel det)
     (hp : statesPrep m = some m') : Inv m' rel det ∧ m'.num = m.num ∧ m'.o = m.o := by
   unfold statesPrep at hp
   simp only at hp
   split at hp
   · cases hp
-  · split at hp
-    · cases hp
-      refine ⟨inv_mapSums ?_ ?_ h, rfl, rfl⟩
-      · intro u
-        obtain ⟨a, b⟩ := redoStates_keeps m.detTrajs m.detW (initSt (firstStates m) (needStates m.sumDet) u)
-        rw [a, b]; exact initSt_keeps _ _ u
-      · intro u
-        obtain ⟨a, b⟩ := redoStates_keeps m.trajs m.relW (initSt (firstStates m) (needStates m.sumRel) u)
-        rw [a, b]; exact initSt_keeps _ _ u
-    · cases hp
-      exact ⟨h, rfl, rfl⟩
+  · cases hp
+    exact ⟨inv_mapSums (rebuildSt_keeps _ _ _ _) (rebuildSt_keeps _ _ _ _) h, rfl, rfl⟩
 
 theorem readStates_inv {m : MT R} {rel det : List (R × R)} (h : Inv m rel det) :
     Inv (readStates m).1 rel det ∧ (readStates m).1.num = m.num ∧ (readStates m).1.o = m.o := by
@@ -267,13 +273,6 @@ theorem readStates_inv {m : MT R} {rel det : List (R × R)} (h : Inv m rel det) 
   cases hp : statesPrep m with
   | none => exact ⟨h, rfl, rfl⟩
   | some m' => exact statesPrep_inv h hp
-
-theorem reduceFinal_keeps {t : Traj R} {w : R} {u v : TSum R} (h : reduceFinal t w u = some v) :
-    v.s1 = u.s1 ∧ v.s2 = u.s2 := by
-  unfold reduceFinal at h
-  split at h
-  · cases h; exact ⟨rfl, rfl⟩
-  · cases h
 
 theorem redoFinal_keeps (ts : List (Traj R)) (ws : List R) {u v : TSum R}
     (h : redoFinal u ts ws = some v) : v.s1 = u.s1 ∧ v.s2 = u.s2 := by
@@ -293,7 +292,7 @@ theorem redoFinal_keeps (ts : List (Traj R)) (ws : List R) {u v : TSum R}
       | none => simp at h1
       | some u0 =>
         simp only [Option.bind_some] at h1
-        obtain ⟨k1, k2⟩ := reduceFinal_keeps h1
+        obtain ⟨k1, k2, _⟩ := reduceFinal_keeps h1
         exact ⟨u0, rfl, by rw [e1, k1], by rw [e2, k2]⟩
   obtain ⟨u0, h0, e1, e2⟩ := key l (some u) v h
   cases h0
